@@ -183,6 +183,7 @@ class Interp:
         self.writes: set = set()  # (object cell key, field) written so far
         self.stale: set = set()  # fields holding a value of an earlier call (see rules R6)
         self.stale_reads: list = []
+        self._gen_cache: dict[str, bool] = {}
         self.in_cond = 0
         self.pseudo: set = set()  # identities of elements selected by index / pop (always current)
         self.collectors: list = []  # (uncertainty level, fields definitely written) per open branch of an undecided `if`
@@ -1381,7 +1382,7 @@ class Interp:
         out: set = set()
         for _k, v in list(self.cell(ref).entries):
             if lk:
-                out |= self.map_scalars(v, lambda s: replace(s, assoc=s.assoc | lk), (id(node), fr.inv, "lk", ref.key))
+                out |= self.map_scalars(v, lambda s: s if (lk <= s.assoc or not (s.srcs or s.roles)) else replace(s, assoc=s.assoc | lk), (id(node), fr.inv, "lk", ref.key))
             else:
                 out |= v
         return frozenset(out)
@@ -1612,7 +1613,7 @@ class Interp:
         if a.kwarg is not None:
             env[a.kwarg.arg] = V(Opaque("kwargs"))
         guards = [(r[0], r[1], r[3]) for r in self.data_conds(node, caller_env, fr)] if (fr is not None and caller_env is not None) else []
-        if not isinstance(fi.node, ast.Lambda) and any(isinstance(x, (ast.Yield, ast.YieldFrom)) for x in own_nodes(fi.node)):
+        if not isinstance(fi.node, ast.Lambda) and self.is_generator(fi):
             callee_fr.yields = self.coll((id(fi.node), inv, "gen"), self.site(callee_fr, fi.node))
         self.stack.append(fi.fq)
         self.guards.append(guards)
@@ -1629,6 +1630,11 @@ class Interp:
         if end is not None:
             out |= NONE_V
         return out
+
+    def is_generator(self, fi: FuncInfo) -> bool:
+        if fi.fq not in self._gen_cache:
+            self._gen_cache[fi.fq] = any(isinstance(x, (ast.Yield, ast.YieldFrom)) for x in own_nodes(fi.node))
+        return self._gen_cache[fi.fq]
 
     def construct(self, fq: str, args: list, kwargs: dict, node: ast.AST, fr: Frame | None, env: dict | None = None) -> frozenset:
         ci = self.repo.classes.get(fq)
